@@ -124,13 +124,19 @@ DevFlattenSeq(src) ==
 (* batch, which is then counted as one entry when other entries remain.                       *)
 SingleStr(m) == Len(m.es) = 1 /\ m.es[1].m \in {"none", "str"} /\ m.es[1].v.t = "pat"
 SeqBatchKey(m) == <<m.es[1].f, m.es[1].m, BatchClass(m.es[1].v)>>
+SingleNested(m) == Len(m.es) = 1 /\ m.es[1].m = "none" /\ m.es[1].v.t = "map"
 DevMergeBatch(src) ==
   \E n \in QuantNames(src.cond) :
      LET b == BodyOf(src.ids, n) IN
-     b.t = "seq" /\ \E i, j \in DOMAIN b.ms :
-        i < j /\ SingleStr(b.ms[i]) /\ SingleStr(b.ms[j])
-        /\ BatchClass(b.ms[i].es[1].v) # <<"solo">>
-        /\ SeqBatchKey(b.ms[i]) = SeqBatchKey(b.ms[j])
+     \/ b.t = "seq" /\ \E i, j \in DOMAIN b.ms :
+           i < j /\ SingleStr(b.ms[i]) /\ SingleStr(b.ms[j])
+           /\ BatchClass(b.ms[i].es[1].v) # <<"solo">>
+           /\ SeqBatchKey(b.ms[i]) = SeqBatchKey(b.ms[j])
+     (* ... or nested blocks on one field: shake merges them into ONE block (an or of the blocks) *)
+     \/ b.t = "seq" /\ \E i, j \in DOMAIN b.ms :
+           i < j /\ SingleNested(b.ms[i]) /\ SingleNested(b.ms[j]) /\ b.ms[i].es[1].f = b.ms[j].es[1].f
+     \/ b.t = "map" /\ Len(b.es) = 1 /\ b.es[1].v.t = "list"
+        /\ Cardinality({i \in DOMAIN b.es[1].v.vs : b.es[1].v.vs[i].t = "map"}) >= 2
 
 (* KF quant_batch_array: a quantified batch evaluated on an array field (per element).         *)
 RECURSIVE HasMultiArray(_)
